@@ -103,21 +103,31 @@ def check_strategy(pair, key, wit):
         if got != key:
             cx.violation(f"C14:strategy-does-not-reproduce-rule:{name}",
                          f"{name} database hands back {strat!r} for {key}; re-applied it gives {got}", wit)
-        if in_eqv and not strat(classdb.get_class(key[0])).is_two_way():
-            cx.violation(f"C14:one-way-strategy-in-equivalence-store:{name}", f"{strat!r} for {key}", wit)
-        if not in_eqv and len(key[1]) == 1 and strat(classdb.get_class(key[0])).is_two_way():
-            # a single-child rule that is two-way is kept in the equivalence store only: what the
-            # general store hands back for a single-child key must be the one-way rule recorded there
-            cx.violation(f"C14:two-way-strategy-from-general-store:{name}",
-                         f"{name} database hands back the two-way strategy {strat!r} for the single-child key "
-                         f"{key} of its general store (the rule recorded under it was one-way)", wit)
-        if in_eqv and in_gen and len(key[1]) == 1:
-            cx.count("diff.keys_in_both_stores_looked_up")
-            g = db.rule_to_strategy[key]
-            if g(classdb.get_class(key[0])).is_two_way():
-                cx.violation(f"C14:two-way-strategy-from-general-store:{name}",
-                             f"{name} database: key {key} is in both stores; the general store hands back the "
-                             f"two-way strategy {g!r}", wit)
+    # "reproduces that rule" includes its direction, and the two databases are to be
+    # observationally identical: for a key held by the same store of both, the rule handed
+    # back by the memory-saving database is one-way exactly when the default's is (a one-way
+    # and a two-way rule can be recorded between the same two classes; which of them a store
+    # keeps is the database's business, but it is the same business for both)
+    parent = classdb.get_class(key[0])
+    for store_name in ("rule_to_strategy", "eqv_rule_to_strategy"):
+        sa, sb = getattr(pair.primary, store_name), getattr(pair.shadow, store_name)
+        if len(key[1]) == 1 and key in sa and key in sb:
+            # (single-child keys only: there the direction decides what the rule means to the
+            # database - an equivalence edge or a one-way edge; with several children two rules
+            # of the pack can share a key and either of them reproduces it)
+            cx.count("diff.rule_directions_compared")
+            try:
+                ga, gb = sa[key], sb[key]
+            except Exception as e:  # noqa: BLE001
+                cx.violation(f"C14:strategy-lookup-raises:{store_name}:{type(e).__name__}",
+                             f"look-up of the strategy for stored key {key} in {store_name} raised "
+                             f"{type(e).__name__}: {str(e)[:200]}", wit)
+            da, db_ = bool(ga(parent).is_two_way()), bool(gb(parent).is_two_way())
+            if da != db_:
+                cx.violation(f"C14:handed-back-direction-differs:{store_name}",
+                             f"for the key {key} of {store_name} the default database hands back a "
+                             f"{'two' if da else 'one'}-way rule ({sa[key]!r}), the memory-saving one a "
+                             f"{'two' if db_ else 'one'}-way rule ({sb[key]!r})", wit)
 
 
 def compare(pair, ev=None):
